@@ -32,6 +32,36 @@ def roundtrips(c, rng, pin, pan, pan4, key):
             c.fail(f"format {name}: decode(encode(pin)) = {d.value if d.ok else d.err} != {pin}")
 
 
+def related_pairs(rng, tier):
+    for d in "0123456789":
+        for e in ("0", "9", d, str(9 - int(d))):
+            for plen in (4, 12):
+                yield d * plen, e * rng.choice((13, 16, 19)), "constant digits"
+    for plen in range(4, 13):
+        pan12 = digits(rng, 12)
+        pan = digits(rng, rng.randrange(0, 7)) + pan12 + digits(rng, 1)
+        yield pan12[:plen], pan, "PIN = leading PAN digits of the XORed window"
+        yield pan12[-plen:], pan, "PIN = trailing PAN digits of the XORed window"
+        yield pan12[2:2 + plen] if len(pan12[2:2 + plen]) == plen else pan12[:plen], pan, "PIN = the PAN digits it is XORed with"
+        pin = digits(rng, plen)
+        yield pin, (pin * 6)[:rng.choice((13, 16, 19))], "PAN = the PIN repeated"
+    yield "123456789012", "1234567890123", "fixture pair"
+    for t in (0xF, 0x0, 0x6, 0x9, 0xA, 0x5):
+        for plen in range(4, 13):
+            for _ in range(1 if tier == "quick" else 4):
+                pin = list(digits(rng, plen))
+                pan12 = []
+                for j in range(4, 16):                     # nibble j of the block = field nibble j XOR PAN digit j - 4
+                    if j - 2 < plen:                        # a PIN digit
+                        ok = [d for d in range(10) if d ^ t <= 9]
+                        d = rng.choice(ok) if ok else int(pin[j - 2])
+                        pin[j - 2] = str(d)
+                        pan12.append(str(d ^ t) if d ^ t <= 9 else digits(rng, 1))
+                    else:                                   # fill (F in format 0)
+                        pan12.append(str(0xF ^ t) if 0xF ^ t <= 9 else digits(rng, 1))
+                yield "".join(pin), digits(rng, rng.randrange(0, 7)) + "".join(pan12) + digits(rng, 1), f"XORed part of the block is the nibble {t:X} repeated"
+
+
 def generate(rng, tier, seed):
     draws = 2 if tier == "quick" else 6
     for plen in range(4, 13):
@@ -53,6 +83,13 @@ def generate(rng, tier, seed):
             c = Case("roundtrip:long-pan", {"pin_len": plen, "pan_len": panlen})
             roundtrips(c, rng, digits(rng, plen), digits(rng, panlen), digits(rng, 16), rb(rng, 16))
             yield c
+    # PIN and PAN related to each other (the round trip holds for *every* admissible pair): constant digits against constant
+    # digits, the PIN equal to the twelve PAN digits it is XORed with or to a part of them, the PAN made of the PIN repeated,
+    # and pairs chosen so that the XORed part of the block is one nibble repeated (block 0412FFFFFFFFFFFF and the like)
+    for pin, pan, note in related_pairs(rng, tier):
+        c = Case("roundtrip:related-pin-pan", {"note": note})
+        roundtrips(c, rng, pin, pan, pan[-12:] if rng.random() < 0.5 else pin, rb(rng, rng.choice((16, 24, 32))))
+        yield c
     n = 10000 if tier == "thorough" else 400
     pan, pan4, key = digits(rng, 16), digits(rng, 12), rb(rng, 16)
     for v in (range(10000) if tier == "thorough" else rng.sample(range(10000), n)):
